@@ -146,7 +146,7 @@ Proof. vm_compute. reflexivity. Qed.
 From AV.Model Require Import Interp.
 From AV.Spec Require Import WorldSpec.
 From AV.Proofs Require Import NoFault WorldProofs.
-(** WHOLE HISTORIES.  [WorldSpec.spec_run] gives a script its meaning directly on lists (std::vec::Vec semantics: a world of vectors, fresh identities, which values the destructor runs on); [Interp.run_step] is the byte-level machine the harness's trace is compared with.  For EVERY list of operations of the fragment (new, with_capacity, push, insert - every fresh-value source kind, lazy clones of elements of other vectors and of values the caller owns, removal handles of other vectors, typed and erased path -, pop / remove / swap_remove with the handle dropped, downcast, forgotten or moved by push or insert into ANOTHER vector - possibly after a new value was written through it or lazy clones of it were downcast, nested to any depth ([WorldSpec.sp_sink]) -, clear, get, at, vector drop, reserve / reserve_exact / shrink_to_fit / shrink_to, drain and splice with any range and consumption pattern, clone / clone_empty / clone_empty_in, iter / iter_mut with any call pattern, cloned iterators, nth / nth_back, element handles read, written and swapped, type probes, refused wrong-type swap, wrong-typed values offered to push / insert, refused downcasts of removal handles; any number of vectors; every element size incl. 0, every backend kind incl. fixed capacity and the relocating backend with prebuilt capacity), every step's outcome, panic kind, returned values and user-code events are the specification's, the machine state represents the specification's lists afterwards (typed snapshot = list), and no step faults.  Hypothesis [Admissible]: at each growth the allocator can serve the request (decidable: [Admissibleb]); non-vacuity: [ex_admissible], [ex_spec_defined] on a 106-step history through every case. *)
+(** WHOLE HISTORIES.  [WorldSpec.spec_run] gives a script its meaning directly on lists (std::vec::Vec semantics: a world of vectors, fresh identities, which values the destructor runs on); [Interp.run_step] is the byte-level machine the harness's trace is compared with.  For EVERY list of operations of the fragment (new, with_capacity, push, insert - every fresh-value source kind, lazy clones of elements of other vectors and of values the caller owns, removal handles of other vectors, typed and erased path -, pop / remove / swap_remove with the handle dropped, downcast, forgotten or moved by push or insert into ANOTHER vector - possibly after a new value was written through it or lazy clones of it were downcast, nested to any depth ([WorldSpec.sp_sink]) -, clear, get, at, vector drop, reserve / reserve_exact / shrink_to_fit / shrink_to, drain and splice with any range and consumption pattern, clone / clone_empty / clone_empty_in, iter / iter_mut with any call pattern, cloned iterators, nth / nth_back, element handles read, written and swapped, type probes, refused wrong-type swap, wrong-typed values offered to push / insert, refused downcasts of removal handles; any number of vectors; every element size incl. 0, every backend kind incl. fixed capacity and the relocating backend with prebuilt capacity), every step's outcome, panic kind, returned values and user-code events are the specification's, the machine state represents the specification's lists afterwards (typed snapshot = list), and no step faults.  Hypothesis [Admissible]: at each growth the allocator can serve the request (decidable: [Admissibleb]); non-vacuity: [ex_admissible], [ex_spec_defined] on a 106-step history through every case.  Drained elements of another vector as value sources: [C01_drained_sources_in_histories]. *)
 (** one script step *)
 Theorem C01_step_refines :
   forall (c : cfg) (w : world) (st : astate) (o : op) (r : sres),
@@ -243,6 +243,17 @@ Theorem C01_sinks_in_histories :
          end.
 Proof. exact sink_spec. Qed.
 
+(** a drained element as the value source of push / insert on another vector (erased: the Element itself, typed: the T read out of it), at any point of any history *)
+Theorem C01_drained_sources_in_histories :
+  forall (c : cfg) (w : world) (st : astate) (a : api) (vid : nat) (sb eb : bound)
+           (pat : list (bool * sink)) (f : fin) (r : sres),
+         cfg_wf c ->
+         WRep c w st ->
+         ufuse (wuw w) = None ->
+         sp_drain_mv c st (unext (wuw w)) vid sb eb pat f = Some r ->
+         adm_pat c w vid pat -> res_matches c w (exec c (ODrain a vid sb eb pat f) w) r.
+Proof. exact exec_drain_mv. Qed.
+
 (* ---- end histories ---- *)
 Print Assumptions C01_snapshot.
 Print Assumptions C01_new.
@@ -270,3 +281,4 @@ Print Assumptions C01_example_admissible.
 Print Assumptions C01_example_spec_defined.
 Print Assumptions C01_handle_sources_in_histories.
 Print Assumptions C01_sinks_in_histories.
+Print Assumptions C01_drained_sources_in_histories.
